@@ -34,12 +34,13 @@ SCRIPTS = {
 HEADER = re.compile(rb"^\[monorail \| (?:\x1b\[[0-9;]*m)?(stdout\.zst|stderr\.zst)(?:\x1b\[0m)? \| (.*?) \| (.*?)\]$")
 
 
-def make_repo(s, maxr):
+def make_repo(s, maxr, out_dir=None):
     cmds = {"a": {"build": "x", "lint": "x"}, "b": {"test": "x", "lint": "x"}}
     # Monorail.json (which carries per-scratch ports) is kept out of git so that HEAD, and with it the
     # checkpoint id stored in the copied output directory, is the same in every scratch repository
     r = sc.Repo(s, "r", TARGETS, commands=cmds, max_retained_runs=maxr, init_git=True,
-                files={".gitignore": "monorail-out\nMonorail.json\n"})
+                cfg_extra={"out_dir": out_dir} if out_dir else None,
+                files={".gitignore": "monorail-out\nMonorail.json\n" + ("%s\n" % out_dir.split("/")[0] if out_dir else "")})
     for (c, t), (lines, _, _) in SCRIPTS.items():
         r.set_script(t, c, lines)
     return r
@@ -170,9 +171,12 @@ def observe(r, maxr, history, printed, ran_by_step):
 
 def transition(task):
     maxr, store, parent_key, history, ri, ran_hist = task
+    out_dir = None
+    if isinstance(maxr, tuple):
+        maxr, out_dir = maxr
     s = sc.Scratch("c12")
     try:
-        r = make_repo(s, maxr)
+        r = make_repo(s, maxr, out_dir)
         if parent_key is not None:
             shutil.copytree(os.path.join(store, parent_key), r.out_dir())
         else:
@@ -184,7 +188,7 @@ def transition(task):
         viol = []
         if doc is None or res.code not in (0, 1):
             viol.append(("run-did-not-complete", "%s: exit %s %s" % (run["name"], res.code, res.err[:300])))
-            return {"key": None, "violations": _wrap(viol, maxr, history + [ri]), "obs": None, "ran": {}}
+            return {"key": None, "violations": _wrap(viol, maxr, history + [ri], out_dir), "obs": None, "ran": {}}
         ran = dict(ran_hist)
         ran[len(history)] = executed_pairs(doc)
         viol += observe(r, maxr, history + [ri], doc, ran)
@@ -198,7 +202,7 @@ def transition(task):
                 os.rename(tmp, dst)
             except OSError:
                 shutil.rmtree(tmp, ignore_errors=True)
-        return {"key": key, "violations": _wrap(viol, maxr, history + [ri]), "obs": json.dumps(canon_result(doc), sort_keys=True),
+        return {"key": key, "violations": _wrap(viol, maxr, history + [ri], out_dir), "obs": json.dumps(canon_result(doc), sort_keys=True),
                 "ran": {k: sorted(v) for k, v in ran.items() if k >= len(history) + 1 - maxr}}
     except common.EngineError as e:
         return {"engine_error": str(e)}
@@ -208,9 +212,9 @@ def transition(task):
         s.cleanup()
 
 
-def _wrap(viol, maxr, history):
+def _wrap(viol, maxr, history, out_dir=None):
     return [{"sig": sig, "detail": d, "rank": len(history) * 10 + maxr,
-             "case": {"max_retained_runs": maxr, "history": [RUNS[h]["name"] for h in history]}} for sig, d in viol]
+             "case": {"max_retained_runs": maxr, "out_dir": out_dir, "history": [RUNS[h]["name"] for h in history]}} for sig, d in viol]
 
 
 def run(prop, tier):
@@ -221,15 +225,16 @@ def run(prop, tier):
     ctx = multiprocessing.get_context("fork")
     try:
         if True:
-            for maxr in maxes:
-                store = os.path.join(store_s.dir, "m%d" % maxr)
+            variants = [(m, None) for m in maxes] + [(2, "var/mr out")]   # also a custom out_dir (nested, with a space)
+            for (maxr, odir) in variants:
+                store = os.path.join(store_s.dir, "m%d%s" % (maxr, "o" if odir else ""))
                 os.makedirs(store)
                 seen = {None: []}
                 frontier = [(None, [], {})]
                 depth = 0
                 cap = 4 * maxr + 2
                 while frontier and depth < cap:
-                    tasks = [(maxr, store, k, h, ri, rh) for (k, h, rh) in frontier for ri in range(len(RUNS))]
+                    tasks = [((maxr, odir) if odir else maxr, store, k, h, ri, rh) for (k, h, rh) in frontier for ri in range(len(RUNS))]
                     results = common.pmap(transition, tasks)
                     errs = [r["engine_error"] for r in results if "engine_error" in r]
                     if errs:
@@ -247,9 +252,9 @@ def run(prop, tier):
                     frontier = nxt
                     depth += 1
                 agg["states"] += len(seen)
-                agg["fixpoint"][str(maxr)] = {"states": len(seen), "depth": depth, "converged": not frontier}
+                agg["fixpoint"][str(maxr) + ("+custom out_dir" if odir else "")] = {"states": len(seen), "depth": depth, "converged": not frontier}
                 if len(seen) > 2:
-                    agg["samples"].append({"max_retained_runs": maxr, "history": [RUNS[h]["name"] for h in list(seen.values())[-1]]})
+                    agg["samples"].append({"max_retained_runs": maxr, "out_dir": odir, "history": [RUNS[h]["name"] for h in list(seen.values())[-1]]})
     finally:
         store_s.cleanup()
     agg["distinct_result_documents"] = len(obs)
@@ -271,6 +276,8 @@ def replay(prop, path):
     body = json.load(open(path))
     case = body["case"]
     maxr = case["max_retained_runs"]
+    if case.get("out_dir"):
+        maxr = (maxr, case["out_dir"])
     names = [r["name"] for r in RUNS]
     hist = [names.index(n) for n in case["history"]]
     store_s = sc.Scratch("c12replay")
